@@ -87,7 +87,7 @@ def h_button(ctx: Any, n: int, straddle: bool = False, post: bool = False, code:
 SUITS_ORDER = 'cdhs'
 
 
-def h_door(ctx: Any, code: str, n: int, suits: int = 4, short: bool = False) -> None:
+def h_door(ctx: Any, code: str, n: int, suits: int = 4, short: bool = False, short_stack: int = 2) -> None:
     """stud third street: door cards = pinned symbolic rank/suit."""
     from pokerkit.utilities import Card, Rank, Suit
     C.native_hands()
@@ -98,7 +98,7 @@ def h_door(ctx: Any, code: str, n: int, suits: int = 4, short: bool = False) -> 
     autos = tuple(a for a in Automation if a not in (Automation.HOLE_DEALING,))
     stacks = [100] * n
     if short:
-        stacks[ctx.choice('short_seat', n)] = 2      # ante 1 + 1 chip: all-in with the bring-in
+        stacks[ctx.choice('short_seat', n)] = short_stack      # 2: ante 1 + 1 chip (all-in with the bring-in); 1: all-in by the ante
     st = C.make_state(code, dict(n=n, stacks=tuple(stacks), antes=1, bring_in=2, small_bet=4, big_bet=8,
                                  automations=autos))
     doors = []
@@ -119,8 +119,17 @@ def h_door(ctx: Any, code: str, n: int, suits: int = 4, short: bool = False) -> 
         exp = max(range(n), key=lambda i: key(doors[i]))
     else:
         exp = min(range(n), key=lambda i: key(doors[i]))
+    if st.stacks[exp] == 0:
+        # the designated opener is all-in (ante): the turn passes clockwise, the bring-in is still forced
+        exp = first_able(st, exp)
+        ctx.cover('all-in-opener')
+    if exp is None:
+        ctx.check(st.actor_index is None, 'actor-although-nobody-can-act')
+        ctx.cover('door')
+        return
     ctx.check(st.actor_index == exp, 'door-card-opener', lambda: f'{doors}: actor {st.actor_index} expected {exp}')
     ctx.check(st.can_post_bring_in(), 'bring-in-not-offered')
+    ctx.check(not st.can_check_or_call() and not st.can_fold(), 'bring-in-not-forced')
     op = C.call(ctx, st.post_bring_in)
     ctx.check(op.player_index == exp, 'bring-in-poster')
     ctx.cover('door')
@@ -208,6 +217,9 @@ def jobs(tier: str, seed: int) -> list[dict]:
                         budget_s=B, must_cover=['door']))
         out.append(dict(name=f'door/{code}/n2/short', fn='h_door', traced=False,
                         params=dict(code=code, n=2, short=True), budget_s=B, must_cover=['door']))
+        out.append(dict(name=f'door/{code}/n3/ante-all-in/2suits', fn='h_door', traced=False,
+                        params=dict(code=code, n=3, suits=2, short=True, short_stack=1), budget_s=B,
+                        must_cover=['door', 'all-in-opener']))
         out.append(dict(name=f'door/{code}/n3/2suits', fn='h_door', traced=False,
                         params=dict(code=code, n=3, suits=2), budget_s=B, must_cover=['door']))
         for short in (-1, 0, 1, 2):
